@@ -77,7 +77,7 @@ def bpms(r):
 
 def plan(tier, seed):
     K = 4 if tier == "quick" else 5
-    shards = [(r, i, K) for r in RES for i in range(5)] + [("subus", r) for r in (192, 960, 480)]
+    shards = [(r, i, K) for r in RES for i in range(5)] + [("subus", r) for r in (192, 960, 480)] + [("long", r) for r in RES]
     return dict(shards=shards, bounds=dict(resolutions=list(RES), segments=K, gaps=list(GAPS), bpm_thousandths={str(r): list(bpms(r)) for r in RES}), budget_s=900 if tier == "thorough" else 300)
 
 
@@ -97,6 +97,27 @@ def build(r, tempo):
 def run_shard(shard, ctx):
     if shard[0] == "subus":
         return _subus(ctx, shard[1])
+    if shard[0] == "long":
+        r = shard[1]
+        B = bpms(r)
+        for n in (9, 10, 16, 17, 18, 33, 65):
+            for gaps in ((1,), (2, 1), (7, 1, 1)):
+                ticks, t = [], 0
+                for i in range(n):
+                    ticks.append(t)
+                    t += gaps[i % len(gaps)]
+                tempo = [(tk, B[(i * 2 + n) % len(B)]) for i, tk in enumerate(ticks)]
+                text = build(r, tempo)
+                strict = all(nn * r <= 3 * 10**10 for _, nn in tempo)
+                got = e1.run_probe(probes[strict], text)
+                ctx.case((r, tuple(tempo)), sample=lambda: dict(resolution=r, tempo_events=n))
+                ctx.evaluations += 3 * (ticks[-1] + 5)
+                ctx.hist["long_maps"] += 1
+                if isinstance(got, list) and got[:1] == ["raises"]:
+                    ctx.hist["undecided(parse or query raises; owned by C01/C08/C15)"] += 1
+                elif got != "monotone":
+                    e1.report(ctx, "monotone", text, src(strict), ["monotone"], got, "resolution %d, tempo map of %d events" % (r, n), extra_case=dict(strict=strict))
+        return
     r, i0, K = shard
     B = bpms(r)
     ctx.node()
